@@ -52,7 +52,7 @@ def handle (line : String) : String :=
       let n := depth a + 1
       reply (pairFields "" a b (termEq a b) (termCmp a b) (termHash a == termHash b) ++
         pairFields "s" a b (eqI termImpl termImpl n a b) (cmpI termImpl termImpl n a b)
-          (hashI termImpl n a == hashI termImpl (depth b + 1) b) ++ [kv "shx" "1"] ++
+          (hashI termImpl n a == hashI termImpl (depth b + 1) b) ++ [kv "shx" "1", kv "sym" "1", kv "swap" "1"] ++
         (if a.kind != b.kind then
            [kv "xk" (ordStr (termCmp a b)),
             kv "o.xk" (if a.kind.rank < b.kind.rank then "lt" else "gt")]
@@ -61,7 +61,7 @@ def handle (line : String) : String :=
   | "c" :: rest =>
     match parseTerms rest with
     | some [t] =>
-      let exact := fromTerm t == t &&
+      let exact := fromTerm t == t && fromImpl termImpl (depth t + 1) t == t &&
         genericLiteral? t == (if t.kind == .literal then some t else none)
       reply [kv "exact" (if exact then "1" else "0"), kv "o.conv" "ok"]
     | _ => "bad-op"
@@ -71,10 +71,11 @@ def handle (line : String) : String :=
       let ts := [a, b, c]
       let m (f : Term → Term → Char) : String :=
         String.ofList (ts.flatMap (fun x => ts.map (fun y => f x y)))
-      reply [kv "meq" (m (fun x y => bCh (termEq x y))),
+      reply ([kv "meq" (m (fun x y => bCh (termEq x y))),
              kv "mcmp" (m (fun x y => ordCh (termCmp x y))),
-             kv "mheq" (m (fun x y => bCh (termHash x == termHash y))),
-             kv "o.laws" "ok"]
+             kv "mheq" (m (fun x y => bCh (termHash x == termHash y)))] ++
+        -- the laws are demanded of well-formed terms only (`WF`: see `cmp_trans_needs_wf`)
+        (if a.WF && b.WF && c.WF then [kv "o.laws" "ok"] else [kv "laws" "nonwf"]))
     | _ => "bad-op"
   | "ns" :: hns :: hsuf :: "|" :: rest =>
     match charsOfHex hns, charsOfHex hsuf, Term.parseAll rest with
